@@ -206,7 +206,7 @@ def exact_system_eval(spec, xvals: dict):
     return env
 
 
-def random_loop_system(rng, size=2, name='loop', max_level=2, downstream=True, nonlinear=False, extra=False, log=None, norms=False):
+def random_loop_system(rng, size=2, name='loop', max_level=2, downstream=True, nonlinear=False, extra=False, log=None, norms=False, gain_scale=1):
     """A feedback loop of `size` components: comp i computes u_i = c_i + sum_j A_ij * u_j (+ quadratic term if nonlinear)
     + b_i * x_i, with a contraction matrix A (row sums < 0.6); optionally a downstream component reading u_0.
     Returns (system, spec) with spec['A'], spec['b'], spec['c'] as Fractions for the exact linear solve."""
@@ -219,7 +219,7 @@ def random_loop_system(rng, size=2, name='loop', max_level=2, downstream=True, n
         js.add((i + 1) % size)
         js.discard(i)
         for j in js:
-            A[i][j] = Fraction(rng.choice([-2, -1, 1, 2]), 8)
+            A[i][j] = Fraction(rng.choice([-2, -1, 1, 2]), 8) * gain_scale
     b = [Fraction(rng.choice([1, 2, -1]), 2) for _ in range(size)]
     c = [Fraction(rng.randint(-2, 2), 2) for _ in range(size)]
     variables = {f'x{i}': Variable(f'x{i}', distribution='U(0, 1)') for i in range(size)}
@@ -298,6 +298,25 @@ def field_input_system(rng, name='fld', field_norm=None):
         return {'amp': dd * np.mean(pf, axis=-1) + 0.5 * dd ** 2}
     comp = Component(model, [d, p], [amp], name='fq', data_fidelity=(2, 2), vectorized=True)
     return System(comp, name=name), None
+
+
+def branching_system(rng, name='br'):
+    """source -> {target, side}, side -> sink: two sibling branches whose relative order in a topological sort is not fixed by the
+    dependencies; the coupling variable of the side branch starts with a too-narrow domain guess"""
+    from amisc import Component, System, Variable
+    X = {f'x{i}': Variable(f'x{i}', distribution='U(0, 1)') for i in range(3)}
+    ya = Variable('ya', domain=(0.0, 3.0)); yb = Variable('yb', domain=(-20.0, 20.0))
+    ye = Variable('ye', domain=(0.0, 1.0)); yf = Variable('yf', domain=(-50.0, 50.0))
+    c = [rng.randint(1, 3) for _ in range(6)]
+    m_src = make_poly_model(['x0'], {'ya': [(c[0], (2,)), (1, (1,))]})
+    m_tgt = make_poly_model(['ya', 'x1'], {'yb': [(c[1], (1, 1)), (c[2], (0, 2))]})
+    m_side = make_poly_model(['ya', 'x2'], {'ye': [(c[3], (1, 0)), (1, (0, 2))]})
+    m_sink = make_poly_model(['ye'], {'yf': [(c[4], (2,)), (c[5], (1,))]})
+    comps = [Component(m_src, [X['x0']], [ya], name='source', vectorized=True, data_fidelity=(2,)),
+             Component(m_tgt, [ya, X['x1']], [yb], name='target', vectorized=True, data_fidelity=(2, 2)),
+             Component(m_side, [ya, X['x2']], [ye], name='side', vectorized=True, data_fidelity=(2, 2)),
+             Component(m_sink, [ye], [yf], name='sink', vectorized=True, data_fidelity=(2,))]
+    return System(*comps, name=name), None
 
 
 def two_field_input_system(rng, name='fld2'):
